@@ -41,6 +41,9 @@ def shards(tier):
     for a in [x for x in alignsweep.strings("ACG", 3, 3) if alignsweep.canonical(x) == x]:
         for prefix in (True, False):
             out.append(dict(kind="mixed", first=a, prefix=prefix, tier=tier))
+    # the grouping of a mixed adapter list into indexes (AdapterCutter): with and without index the same unique adapter is applied
+    for part in range(4):
+        out.append(dict(kind="cutter", part=part, parts=4, tier=tier, first=None, prefix=True))
     # operation sequences of depth two on one index object: every ordered pair of reads (N reads included) consecutively
     for seqs in (("AAA", "AAC"), ("ACG", "AACA"), ("ACGA", "ACGT", "AGGT")):
         for prefix in (True, False):
@@ -77,6 +80,55 @@ def _mutants(s, emax):
     if emax >= 4:
         out += [((i, i + 3, i + 9, i + 17), sub((i, i + 3, i + 9, i + 17))) for i in range(0, L - 17, 5)]
     return out
+
+
+CUTTER_POOL = [("front", "^ACG"), ("front", "^AAC"), ("front", "^ACGA"), ("back", "CGT$"), ("back", "GGT$"), ("back", "ACGT$"), ("back", "TTG"),
+               ("front", "GAT")]
+
+
+def run_cutter(d, res):
+    """AdapterCutter regroups a list of adapters into indexes for the anchored 5' and the anchored 3' ones: every adapter of the list
+    must still be searched.  For every list of 3-4 adapters from a pool (1-3 anchored 5', 1-3 anchored 3', regular ones) and every
+    read: if exactly one adapter of the list matches the read on its own, the cutter built WITH index must apply exactly that adapter
+    and give the read the cutter WITHOUT index gives."""
+    from cutadapt.info import ModificationInfo
+    from cutadapt.modifiers import AdapterCutter
+    from cutadapt.parser import make_adapters_from_specifications
+    from dnaio import SequenceRecord
+
+    V = res["viol"]
+    R = [r for r in alignsweep.strings("ACGT", 6 if d["tier"] == "thorough" else 5)]
+    lists = [c for n in (3, 4) for c in itertools.combinations(range(len(CUTTER_POOL)), n)]
+    lists = [c for c in lists if any(CUTTER_POOL[i][1].startswith("^") for i in c) and any(CUTTER_POOL[i][1].endswith("$") for i in c)]
+    lists = lists[d["part"]:: d["parts"]]
+    for combo in lists:
+        for order in (combo, combo[::-1]):
+            specs = [(CUTTER_POOL[i][0], f"a{i}={CUTTER_POOL[i][1]}") for i in order]
+            for rate, indels in ((0.0, False), (0.34, False), (0.34, True)):
+                params = dict(max_errors=rate, min_overlap=3, read_wildcards=False, adapter_wildcards=True, indels=indels)
+                ads = make_adapters_from_specifications(specs, params)
+                with_index = AdapterCutter(ads, times=1, action="trim", index=True)
+                without = AdapterCutter(make_adapters_from_specifications(specs, params), times=1, action="trim", index=False)
+                res["builds"] += 1
+                cfg = dict(adapters=[s_ for _, s_ in specs], types=[t for t, _ in specs], rate=rate, indels=indels, family="cutter")
+                for r in R:
+                    alone = [a.name for a in ads if a.match_to(r) is not None]
+                    res["evals"] += 1
+                    if len(alone) != 1:
+                        continue
+                    res["clause2"] += 1
+                    res["nontrivial"] += 1
+                    q = "".join(chr(48 + k) for k in range(len(r)))
+                    i1, i2 = ModificationInfo(SequenceRecord("r", r, q)), ModificationInfo(SequenceRecord("r", r, q))
+                    o1 = with_index(SequenceRecord("r", r, q), i1)
+                    o2 = without(SequenceRecord("r", r, q), i2)
+                    n1, n2 = [m.adapter.name for m in i1.matches], [m.adapter.name for m in i2.matches]
+                    # with indels the index may remove a longer or shorter (equally genuine) occurrence of the same adapter than the
+                    # one-by-one search: the read itself is compared only without indels
+                    if n1 != alone or (not indels and (o1.sequence, o1.qualities) != (o2.sequence, o2.qualities)):
+                        V.append(("cutter", "with the default grouping into indexes the adapter that alone matches the read is not applied as "
+                                  "without index", dict(cfg, read=r, matching_alone=alone, with_index=[n1, o1.sequence], without_index=[n2, o2.sequence])))
+    return res
 
 
 def run_history(d, res):
@@ -232,7 +284,7 @@ def run_shard(d):
                                    MultipleAdapters)
 
     sc = _scope(d["tier"])
-    nmax = sc["nmax"] if d["kind"] in ("pairs", "rounding", "history") else sc["triple_nmax"]
+    nmax = sc["nmax"] if d["kind"] in ("pairs", "rounding", "history", "cutter") else sc["triple_nmax"]
     rates = sc["rates"] if d["kind"] == "pairs" else sc["triple_rates"]
     rs, nplain = _reads(nmax)
     reads = rs.reads
@@ -246,6 +298,8 @@ def run_shard(d):
         return run_rounding(d, res)
     if d["kind"] == "history":
         return run_history(d, res)
+    if d["kind"] == "cutter":
+        return run_cutter(d, res)
     case_nmax = 4
     first = d["first"]
     if d["kind"] == "pairs":
@@ -375,7 +429,8 @@ def run(tier):
                     "length) x indels on/off x anchored 5'/3' x ALL reads over ACGT up to the stated length + reads with one N, each also in lower and "
                     "mixed case; + three adapters of lengths 47-49 with ABSOLUTE error counts (where k/L*L truncates to k-1) against every "
                     "0..k+1-substitution neighbour pattern listed in the source; + every ORDERED PAIR of ~700 reads (plain, one N, lower case) "
-                    "as consecutive look-ups in one index object (three adapter sets); "
+                    "as consecutive look-ups in one index object (three adapter sets); + AdapterCutter with and without index on every list of 3-4 adapters "
+                    "from an 8-entry pool mixing anchored 5', anchored 3' and regular adapters (reads on which exactly one adapter matches); "
                     "non-trivial = at least one adapter occurs within tolerance at the anchored end",
                     True, extra=dict(scope=_scope(tier)))
 
@@ -387,6 +442,9 @@ def replay(path):
         v = json.load(f)
     print(json.dumps(v, indent=1))
     c = v["case"]
+    if c.get("family") == "cutter":
+        import sys
+        return common.replay_by_rerun(sys.modules[__name__], PROP, path)
     prefix = c["end"] == "5'"
     Cls = PrefixAdapter if prefix else SuffixAdapter
     rv = c.get("rates") or [c.get("max_errors", c.get("rate"))] * len(c["adapters"])
